@@ -681,7 +681,7 @@ func findStylesheets(wrapperElement *utils.HTMLNode, deviceMediaType string, url
 		}
 		media := strings.Split(mediaAttr, ",")
 		for i, s := range media {
-			media[i] = strings.TrimSpace(s)
+			media[i] = utils.AsciiLower(strings.TrimSpace(s))
 		}
 		if !evaluateMediaQuery(media, deviceMediaType) {
 			continue
